@@ -1,7 +1,7 @@
 from _common import COMMON_NOTE
 
 META = {'title': 'A playing tape presents each TAP block as the standard loader waveform',
- 'lean_modules': ['ZxVerif.Props.C11', 'ZxVerif.Props.C11X'],
+ 'lean_modules': ['ZxVerif.Props.C11', 'ZxVerif.Props.C11X', 'ZxVerif.Props.C11Sys'],
  'extract': ['TapeConsts'],
  'modelled_code': ['rustzx-core/src/zx/tape/tap.rs (process_clocks, the pulse state machine, pulse constants, '
                    'next_block/next_block_byte feeding it)',
@@ -30,7 +30,10 @@ META = {'title': 'A playing tape presents each TAP block as the standard loader 
  'level_text': 'Theorems in Lean 4, for every well-formed tape and every schedule of 1..16 T steps: process_clocks never '
                'fails, its transitions are exactly the nominal sequence (pilot count by flag, 667, 735, two pulses per bit '
                'MSB first for every byte, pause) and every pulse lasts nominal+1..nominal+31 T (within the property\'s '
-               '0..32); a threshold decoder recovers exactly the block bytes. The model is tied to the Rust code on '
+               '0..32); a threshold decoder recovers exactly the block bytes. System level (C11Sys): the same for schedules with zero-length '
+               'calls (steps 0..16: nominal..nominal+31) and for the raw wait_internal schedule of the composed machine under '
+               'every program (steps 0..13, do_contention\'s wait_internal(0) included): every pulse nominal..nominal+25 T, '
+               'in nominal order, and the pulses provably arrive. The model is tied to the Rust code on '
                'every run by an exact edge-time correspondence under seeded schedules, the executable waveform spec '
                'adjudicating; the real 48K ROM loads sample tapes in real time and is compared with LD-BYTES spec and '
                'fast loading, and the EAR waveform is sampled through the real machine under arbitrary CPU activity.',
